@@ -51,12 +51,20 @@ Definition must_report (p : plugin) (typs : list aty) : bool :=
   (* the combinators that receive from their channel arguments: a send only channel; join's
      channel of channels hands out <-chan T, and channel element types have to be identical *)
   | PDup, [c] => is_sendonly c
+  (* a variadic function where the plugin calls the function with one element (its parameter has
+     the slice type, the generated code would declare `func([]T) R`) *)
+  | PFmap, [ASig _ _ v; c] => v || is_sendonly c
   | PFmap, [_; c] => is_sendonly c
+  | (PAll | PAny | PFilter | PTakewhile | PTraverse), [ASig _ _ v; _] => v
   | PJoin, [ASlice c] => is_sendonly c
   | PJoin, [AChan d (AChan d' e)] => is_sendonly (AChan d (AChan d' e)) || chan_not_recvonly (AChan d' e)
   | PJoin, AChan _ _ :: _ => existsb is_sendonly typs
-  | PPipeline, [ASig _ (TCons c1 TNil) _; ASig _ (TCons c2 TNil) _] =>
-      is_sendonly c1 || chan_not_recvonly c2
+  | PPipeline, [ASig _ rs1 v1; ASig _ rs2 v2] =>
+      v1 || v2 ||
+      match rs1, rs2 with
+      | TCons c1 TNil, TCons c2 TNil => is_sendonly c1 || chan_not_recvonly c2
+      | _, _ => false
+      end
   | PSort, [ASlice e] => has_unsup true true e
   | (PMin | PMax), [a; b] =>
       if identical a b then has_unsup true true a
